@@ -10,6 +10,7 @@ import (
 	"runtime"
 	"strings"
 	"sync"
+	"sync/atomic"
 	"time"
 
 	txfile "github.com/elastic/go-txfile"
@@ -34,6 +35,7 @@ func RunConcurrentQueue(c QCfg, events int) *core.Trace {
 		}
 	}
 	produced := make(chan int, 1)
+	var progress int64 // successful operations of either side (the watchdog looks at progress, not at time)
 	wg.Add(2)
 	go func() { // producer
 		defer wg.Done()
@@ -54,6 +56,7 @@ func RunConcurrentQueue(c QCfg, events int) *core.Trace {
 				}
 			}
 			n++
+			atomic.AddInt64(&progress, 1)
 			if rng.Intn(4) == 0 {
 				e.Flush()
 			}
@@ -74,15 +77,24 @@ func RunConcurrentQueue(c QCfg, events int) *core.Trace {
 		defer wg.Done()
 		defer guard("consumer")
 		rng := rand.New(rand.NewSource(c.Seed + 1))
-		idle := 0
+		idle, outstanding := 0, 0
 		for consumed < events && idle < 200000 {
 			select {
 			case <-stop:
 				return
 			default:
 			}
-			got := consume(e, rng, 1+rng.Intn(8), true)
+			got, acked := consumeAck(e, rng, 1+rng.Intn(8), true)
 			consumed += got
+			outstanding += got - acked
+			if got == 0 && outstanding > 0 {
+				// nothing to read: a consumer that keeps up ACKs what it has consumed (the
+				// producer may be waiting for exactly that space)
+				if e.ACK(outstanding) == nil {
+					outstanding = 0
+					atomic.AddInt64(&progress, 1)
+				}
+			}
 			if got == 0 {
 				idle++
 				runtime.Gosched()
@@ -91,18 +103,64 @@ func RunConcurrentQueue(c QCfg, events int) *core.Trace {
 				}
 			} else {
 				idle = 0
+				atomic.AddInt64(&progress, 1)
 			}
 		}
 	}()
 	done := make(chan struct{})
 	go func() { wg.Wait(); close(done) }()
-	select {
-	case <-done:
-		e.Counters()
-		e.Close()
-	case <-time.After(90 * time.Second):
-		close(stop)
-		e.Emit(core.Event{"ev": "Hang", "consumed": consumed})
+	// a hang is the absence of any progress for a minute (not a bound on the total time: the
+	// machine may be busy); a run that keeps making progress but does not finish within the
+	// overall budget is a failure of the harness, not of the queue
+	last, lastAt, start := int64(-1), time.Now(), time.Now()
+	tick := time.NewTicker(500 * time.Millisecond)
+	defer tick.Stop()
+loop:
+	for {
+		select {
+		case <-done:
+			e.Counters()
+			e.Close()
+			break loop
+		case <-tick.C:
+			if p := atomic.LoadInt64(&progress); p != last {
+				last, lastAt = p, time.Now()
+			}
+			if time.Since(lastAt) > 60*time.Second {
+				close(stop)
+				diag := map[string]interface{}{}
+				select {
+				case <-done: // both sides have stopped: look at the state they are stuck in
+					st := e.F.VerifSnapshot(false)
+					nfree := func(rs []txfile.VerifRegion) (n uint64) {
+						for _, r := range rs {
+							n += uint64(r.Count)
+						}
+						return
+					}
+					diag["data_free"], diag["meta_free"] = nfree(st.DataFree), nfree(st.MetaFree)
+					diag["data_end"], diag["meta_end"], diag["meta_total"], diag["max_pages"] = st.DataEnd, st.MetaEnd, st.MetaTotal, st.MaxPages
+					diag["data_allocated"] = st.Stats.DataAllocated
+					if p, err := e.Q.Pending(); err == nil {
+						diag["pending"] = p
+					}
+					if err := e.W.Flush(); err != nil {
+						diag["flush_error"] = fmt.Sprintf("%+v", err)
+					} else {
+						diag["flush_error"] = ""
+					}
+				case <-time.After(5 * time.Second):
+					diag["stuck"] = "the goroutines did not stop"
+				}
+				e.Emit(core.Event{"ev": "Hang", "consumed": consumed, "no_progress_s": 60, "diag": diag})
+				break loop
+			}
+			if time.Since(start) > 20*time.Minute {
+				close(stop)
+				e.Emit(core.Event{"ev": "TimedOut", "consumed": consumed})
+				break loop
+			}
+		}
 	}
 	tr.Events = e.Events()
 	return tr
@@ -123,6 +181,15 @@ func CheckC13(r *core.Run) {
 			c.MaxPages = 0
 		}
 	})
+	if only := os.Getenv("VERIF_ONLY_CFG"); only != "" { // (development aid)
+		var sel []QCfg
+		for _, c := range cfgs {
+			if c.Name == only {
+				sel = append(sel, c)
+			}
+		}
+		cfgs = sel
+	}
 	traces := make([]*core.Trace, len(cfgs))
 	var wg sync.WaitGroup
 	sem := make(chan struct{}, 6)
@@ -152,6 +219,16 @@ func CheckC13(r *core.Run) {
 	}
 	wg.Wait()
 	traces = append(traces, steered...)
+	// a run that made progress all the time but exceeded the overall budget says nothing
+	kept := traces[:0]
+	for _, t := range traces {
+		if n := len(t.Events); n > 0 && t.Events[n-1]["ev"] == "TimedOut" {
+			r.Break("concurrent run %s did not finish within the budget (it kept making progress): %v", t.Name, t.Events[n-1])
+			continue
+		}
+		kept = append(kept, t)
+	}
+	traces = kept
 	for _, t := range traces {
 		r.AddDistinct(fmt.Sprint(t.Meta))
 		r.AddEvals(int64(len(t.Events)))
